@@ -33,8 +33,35 @@ ReqVertex(l)  == IF l.name = "" THEN Arg(l.type, l.sub) ELSE Val(l.name, l.type,
 ProvVertex(l) == IF l.name = "" THEN Out(l.type, l.sub) ELSE Val(l.name, l.type, l.sub)
 LabelOfV(v)   == [name |-> v.name, type |-> v.type, sub |-> v.sub]
 
-\* functions of a scenario: 0 = target, i = converter i
-Funcs(scn) == [i \in 0..Len(scn.convs) |-> IF i = 0 THEN scn.target ELSE scn.convs[i]]
+ReqVertex0(l)  == IF l.name = "" THEN [k |-> "arg", name |-> "", type |-> l.type, sub |-> l.sub, id |-> 0]
+                  ELSE [k |-> "val", name |-> l.name, type |-> l.type, sub |-> l.sub, id |-> 0]
+ProvVertex0(l) == IF l.name = "" THEN [k |-> "out", name |-> "", type |-> l.type, sub |-> l.sub, id |-> 0]
+                  ELSE [k |-> "val", name |-> l.name, type |-> l.type, sub |-> l.sub, id |-> 0]
+\* supplied functions of a scenario: 0 = target, i = converter i
+BaseFuncs(scn) == [i \in 0..Len(scn.convs) |-> IF i = 0 THEN scn.target ELSE scn.convs[i]]
+
+\* ---- converter generators (args.go:336-363).  A generator is shown every value / typed-output vertex that
+\* exists once the supplied functions and inputs are in the graph (a snapshot: vertices added by generated
+\* converters are not shown); the harness's generators answer for vertices of type `from` with a converter
+\* from:<sub> -> to:<sub> that keeps the vertex's name and subtype (assembled with BuildFunc).
+GenSnapshot(scn) ==
+  LET F == BaseFuncs(scn) IN
+  UNION { {ReqVertex0(F[i].in[j]) : j \in DOMAIN F[i].in}
+          \cup (IF i = 0 THEN {} ELSE {ProvVertex0(F[i].out[j]) : j \in DOMAIN F[i].out}) : i \in DOMAIN F }
+  \cup {ProvVertex0(scn.inputs[j]) : j \in FoldedIdx(scn.inputs)}
+GenFor(g, v) == [in |-> <<[name |-> v.name, type |-> g.from, sub |-> v.sub]>>, out |-> <<[name |-> v.name, type |-> g.to, sub |-> v.sub]>>,
+                 form |-> "built", hasErr |-> TRUE, fails |-> FALSE, once |-> FALSE, nilOut |-> FALSE]
+GenMatches(scn, g) == \E v \in GenSnapshot(scn) : v.k \in {"val", "out"} /\ v.type = g.from
+\* a generator reporting an error makes the whole call fail (repair of F5a: formerly a panic)
+GenError(scn) == \E k \in DOMAIN scn.gens : scn.gens[k].mode = "err" /\ GenMatches(scn, scn.gens[k])
+GenList(scn) ==
+  TLCEval(SetToSeq(UNION { {GenFor(scn.gens[k], v) : v \in {x \in GenSnapshot(scn) : x.k \in {"val", "out"} /\ x.type = scn.gens[k].from}}
+                           : k \in {x \in DOMAIN scn.gens : scn.gens[x].mode = "conv"} }))
+\* all functions: 0 = target, 1..n supplied converters, n+1.. generated converters (in a canonical order: the
+\* real generation order follows map iteration; generated functions are identified by their labels)
+Funcs(scn) == LET gl == GenList(scn) IN
+              [i \in 0..(Len(scn.convs) + Len(gl)) |->
+                 IF i = 0 THEN scn.target ELSE IF i <= Len(scn.convs) THEN scn.convs[i] ELSE gl[i - Len(scn.convs)]]
 
 \* ---- func-type identity (graph.go: funcVertex.Hashcode = fn.Type()) ----
 PlainLs(ls) == \A j \in DOMAIN ls : ls[j].name = "" /\ ls[j].sub = ""
